@@ -12,6 +12,7 @@ from ..entries import make_signal, rec_array, R, DT, generalise_defaults
 from ..autoargs import auto_args
 from ..values import *  # noqa
 from ..values import _NOCONST as _NOCONST_
+from ..tyob import sibling_defaults
 
 CLASSES = ["eqsig.single.Signal", "eqsig.single.AccSignal"]
 # methods that (re)generate a cached quantity with explicit, caller-chosen parameters: by design the cache then
